@@ -46,10 +46,10 @@ DefInst(k, sh, home, nest, zm, rh, used, off) ==
 \* variants of one instance: an import statement missing; a module not supplied
 DropImport(I) == {[I EXCEPT !.imp = I.imp \ {e}, !.shape = I.shape \o "-noimport"] : e \in I.imp}
 DropModule(I) == {[I EXCEPT !.mods = I.mods \ {x}, !.shape = I.shape \o "-nomodule",
-                            !.defs = {d \in I.defs : d.home # x},
+                            !.defs = {d \in I.defs : ModH(d.home) # x},
                             !.imp = {e \in I.imp : e[1] # x},
                             !.augs = {a \in I.augs : a.m # x}, !.devs = {d \in I.devs : d.m # x}]
-                  : x \in {y \in Mods : y # "m1" /\ \A r \in I.roots : r.home # y}}
+                  : x \in {y \in Mods : y # "m1" /\ \A r \in I.roots : ModH(r.home) # y}}
 Variants(I) == {I} \cup DropImport(I) \cup DropModule(I)
 
 DefFamily(k, sh, Places) ==
@@ -60,6 +60,29 @@ DefFamily(k, sh, Places) ==
            used \in (IF Cyclic(sh) THEN {TRUE, FALSE} ELSE {TRUE}),
            off \in (IF k = "feature" /\ ~Cyclic(sh) /\ sh \notin {"dang", "dang1"}
                     THEN {{}} \cup {{n} : n \in DOMAIN ShapeFn(sh)} ELSE {{}})}
+
+\* ---- twins: the SAME local names defined twice - in two modules, in two sibling scopes of one module,
+\* at the top level of one module and in a scope of another, or (an error in itself) at the top level and
+\* in a scope of the same module.  One copy has shape sh1, the other sh2 (well-formed, cyclic or dangling,
+\* in both roles), every reference is local to its scope, each copy is used by a data node of its own
+\* scope, and optionally a third module uses one of the top-level copies through its prefix.
+LocalDefs(k, sh, h, nest) ==
+  LET F == ShapeFn(sh) IN {[k |-> k, n |-> n, home |-> h, refs |-> {Ref(ModH(h), y) : y \in F[n]}, nest |-> nest] : n \in DOMAIN F}
+TwinInst(k, sh1, sh2, hh, nest, x) ==
+  [Base EXCEPT !.fam = k, !.shape = "twin-" \o sh1 \o "-" \o sh2,
+               !.defs = LocalDefs(k, sh1, hh[1], nest) \cup LocalDefs(k, sh2, hh[2], nest),
+               !.roots = {[home |-> h, k |-> k, m |-> ModH(h), n |-> "a"] : h \in {hh[1], hh[2]}}
+                         \cup (IF x = "" THEN {} ELSE {[home |-> "m3", k |-> k, m |-> x, n |-> "a"]}),
+               !.imp = IF x = "" THEN {} ELSE {<<"m3", x>>}]
+TwinScopes(k) == {<<"m1", "m2">>, <<"m2", "m1">>}
+                 \cup (IF k \in {"grouping", "typedef"}
+                       THEN {<<"m1.x1", "m1.x2">>, <<"m1.x2", "m1.x1">>, <<"m1", "m2.x3">>, <<"m2.x3", "m1">>, <<"m1.x1", "m2.x3">>,
+                             <<"m2.x3", "m1.x1">>, <<"m1", "m1.x1">>, <<"m1.x1", "m1">>}
+                       ELSE {})
+TwinFamily(k) ==
+  UNION {{TwinInst(k, sh1, sh2, hh, nest, x) : x \in {""} \cup {h \in {hh[1], hh[2]} : ~Scoped(h)}}
+         : sh1 \in {"single", "chain"}, sh2 \in {"single", "chain", "self", "cyc2", "cyc3", "lasso", "dang1", "dang"},
+           hh \in TwinScopes(k), nest \in (IF k = "grouping" THEN BOOLEAN ELSE {FALSE})}
 
 \* ---- import graphs: every set of import statements between the supplied modules
 ImportFamily(present) ==
@@ -120,10 +143,11 @@ Combos(n, Places) ==
 \* ---- chunks: <<family, shape, size>>, size "s" = two modules only (quick), "l" = three
 AllPlaces(sz) == IF sz = "s" THEN {"m1", "m2"} ELSE Mods
 Chunk(c) ==
-  CASE c[1] \in Kinds -> DefFamily(c[1], c[2], AllPlaces(c[3]))
+  CASE c[1] \in Kinds /\ c[2] = "twin" -> TwinFamily(c[1])
+    [] c[1] \in Kinds -> DefFamily(c[1], c[2], AllPlaces(c[3]))
     [] c[1] = "import" -> ImportFamily(IF c[3] = "s" THEN {"m1", "m2"} ELSE Mods)
     [] c[1] = "include" -> IncludeFamily(IF c[3] = "s" THEN {"m1"} ELSE {"m1", "m2"}, IF c[3] = "s" THEN IncCandSmall ELSE IncCandFull)
     [] c[1] = "augdev" -> AugDevFamily
-Chunks(sz) == {<<k, sh, sz>> : k \in Kinds, sh \in SingleRef} \cup {<<k, sh, sz>> : k \in {"grouping", "feature"}, sh \in {"fan", "dag"}}
+Chunks(sz) == {<<k, sh, sz>> : k \in Kinds, sh \in SingleRef} \cup {<<k, "twin", sz>> : k \in Kinds} \cup {<<k, sh, sz>> : k \in {"grouping", "feature"}, sh \in {"fan", "dag"}}
               \cup {<<"import", "-", sz>>, <<"include", "-", sz>>, <<"augdev", "-", sz>>}
 =============================================================================
